@@ -312,11 +312,10 @@ def ensure_harness(variant, san=None):
     if san == "asan":
         flags += ["-fsanitize=address,undefined", "-fno-sanitize-recover=all"]
     if san == "tsan":
-        flags += ["-fsanitize=thread"]
+        flags += ["-fsanitize=thread", "-DHARNESS_MT", "-pthread"]
+    if san == "mt":
+        flags += ["-DHARNESS_MT", "-pthread"]
     link = [] if "-DRDSPARSER_DISABLE_HEAP" in defs else ["-Wl,--wrap=malloc"]
-    if san == "mt" or san == "tsan":
-        src = os.path.join(VERIF, "harness", "rds_harness_mt.c")
-        link = ["-pthread"]
     rc, o, e = sh(["gcc"] + flags + defs + INC + [src] + lib_c_files() + link + ["-o", binp], timeout=600)
     if rc != 0:
         raise BuildError("compile-harness-" + name, e[-4000:])
